@@ -5,6 +5,8 @@
   most distant ancestor towards C; a class contributes the fields it declares itself unless C or a class
   nearer to C declares the name" — no gathering pass, no de-duplication pass, no `inherited` bookkeeping,
   no attribute lookup through plain classes, no legacy walk.
+  (K07a — a plain class re-exporting a distant attrs class — was repaired in attrs; plain classes contribute
+  nothing to the MRO collector, in the code as in this rule.)
 -/
 import AttrsModel.Model.C07
 
@@ -203,20 +205,6 @@ def wf (c : Case) : Bool :=
 
 /-! ### known deviations -/
 
-def firstAttrs (cs : List Cls) (ms : List Nat) : Option Nat := ms.find? (isAttrsCls cs)
-
-/-- plain classes of the tail whose `__attrs_attrs__` lookup does not land on the next attrs class of
-    C's own MRO -/
-def strayPlain (cs : List Cls) : List Nat → Bool
-  | [] => false
-  | m :: rest =>
-    (!isAttrsCls cs m && firstAttrs cs (mroOf cs m) != firstAttrs cs rest) || strayPlain cs rest
-
-/-- K07a: a plain class X in C's MRO re-exposes (through attribute lookup) the fields of an attrs class A
-    while another attrs class sits between X and A in C's MRO: A's fields are collected at X's position,
-    so they come too late in the order and beat nearer declarations of the same name -/
-def knownPlainReexport (c : Case) : Bool := strayPlain c.classes (lastCls c).mro.tail
-
 /-- the table of the base classes as the model builds it -/
 def baseTable (c : Case) : Table :=
   match buildTable (mroOf c.classes) c.classes.dropLast [] with
@@ -229,8 +217,7 @@ def knownLegacy (c : Case) : Bool :=
   collectLegacy (mroOf c.classes) (baseTable c) ((specOwn (lastCls c)).map (·.name)) (lastCls c).mro.tail !=
     collectMro (mroOf c.classes) (baseTable c) ((specOwn (lastCls c)).map (·.name)) (lastCls c).mro.tail
 
-def known (c : Case) : List String :=
-  (if knownLegacy c then ["K7"] else []) ++ (if knownPlainReexport c then ["K07a"] else [])
+def known (c : Case) : List String := if knownLegacy c then ["K7"] else []
 
 def check : Check Case Obs := { model := model, spec := spec, wf := wf, known := known }
 
